@@ -435,7 +435,7 @@ func c12FileEntry(c *eng.Ctx, file *ssa.Function, kinds map[string]int64) {
 func atomsShort(as []eng.Atom) string {
 	s := eng.AtomsText(as)
 	if len(s) > 260 {
-		return s[:260] + "…"
+		return strings.ToValidUTF8(s[:260], "") + "…"
 	}
 	return s
 }
